@@ -27,7 +27,19 @@ type fctx struct {
 	used      map[string]int
 	params    []*types.Var // parameters of the function (in order), for loop closures
 	locals    map[*types.Var]bool
-	inout     []*types.Var // pointer parameters that are written through: returned after the results
+	inout     []*types.Var        // pointer parameters that are written through: returned after the results
+	ctxVar    string              // REST mode: the request context parameter
+	zeroVars  map[*types.Var]bool // declared by `var x T` and not yet written
+	recvVals  map[*types.Var]bool // pointer receivers taken by value (REST mode: read-only methods of the DTOs)
+	vtype     map[*types.Var]string
+}
+
+// vT: the Coq type of a variable (json.Marshal's result is a JSON tree, not text)
+func (fc *fctx) vT(n ast.Node, v *types.Var) string {
+	if s, ok := fc.vtype[v]; ok {
+		return s
+	}
+	return fc.t.coqType(n, v.Type())
 }
 
 // what follows a statement list: the term for falling off its end, for `continue` and for `break`
@@ -37,7 +49,7 @@ type konts struct {
 
 func newFctx(t *tr, q string) *fctx {
 	n, m := 0, 0
-	return &fctx{nfor: &m, t: t, q: q, pools: map[string]bool{}, names: map[*types.Var]string{}, used: map[string]int{}, locals: map[*types.Var]bool{}, nloop: &n}
+	return &fctx{nfor: &m, t: t, q: q, pools: map[string]bool{}, names: map[*types.Var]string{}, used: map[string]int{}, locals: map[*types.Var]bool{}, nloop: &n, zeroVars: map[*types.Var]bool{}, recvVals: map[*types.Var]bool{}, vtype: map[*types.Var]string{}}
 }
 
 func (fc *fctx) poolList() []string {
@@ -101,9 +113,16 @@ func (fc *fctx) function(recv *ast.FieldList, ft *ast.FuncType, body *ast.BlockS
 		for _, nm := range f.Names {
 			v := t.info.ObjectOf(nm).(*types.Var)
 			fc.params = append(fc.params, v)
-			params = append(params, "("+fc.varName(v)+" : "+t.coqType(f, v.Type())+")")
-			if t.kindOf(v.Type()) == kSuitePtr {
+			pt := t.coqType(f, v.Type())
+			if fc.recvVals[v] {
+				pt = t.coqType(f, derefT(v.Type()))
+			}
+			params = append(params, "("+fc.varName(v)+" : "+pt+")")
+			if k := t.kindOf(v.Type()); k == kSuitePtr || k == kCtx {
 				fc.inout = append(fc.inout, v)
+				if k == kCtx {
+					fc.ctxVar = fc.varName(v)
+				}
 			}
 		}
 		if len(f.Names) == 0 {
@@ -113,7 +132,10 @@ func (fc *fctx) function(recv *ast.FieldList, ft *ast.FuncType, body *ast.BlockS
 	if recv != nil {
 		for _, f := range recv.List {
 			if _, ptr := f.Type.(*ast.StarExpr); ptr {
-				t.fail(f, "pointer receiver")
+				if !t.restMode || len(f.Names) != 1 || t.kindOf(t.info.TypeOf(f.Type)) != kLocalPtr || writesThrough(t, body, t.info.ObjectOf(f.Names[0])) {
+					t.fail(f, "pointer receiver")
+				}
+				fc.recvVals[t.info.ObjectOf(f.Names[0]).(*types.Var)] = true // a read-only method: the receiver by value
 			}
 			addParam(f)
 		}
@@ -140,8 +162,8 @@ func (fc *fctx) function(recv *ast.FieldList, ft *ast.FuncType, body *ast.BlockS
 		for i := 0; i < results.Len(); i++ {
 			parts = append(parts, t.coqType(ft, results.At(i).Type()))
 		}
-		for range fc.inout {
-			parts = append(parts, "suite_cfg")
+		for _, v := range fc.inout {
+			parts = append(parts, t.coqType(ft, v.Type()))
 		}
 		fc.resT = "(" + strings.Join(parts, " * ") + ")"
 		if len(parts) == 1 {
@@ -344,7 +366,7 @@ func (fc *fctx) varList(vs []*types.Var) (names string, binders string) {
 	var ns, bs []string
 	for _, v := range vs {
 		ns = append(ns, fc.varName(v))
-		bs = append(bs, "("+fc.varName(v)+" : "+fc.t.coqType(nil, v.Type())+")")
+		bs = append(bs, "("+fc.varName(v)+" : "+fc.vT(nil, v)+")")
 	}
 	if len(vs) == 0 {
 		return "tt", "(_ : unit)"
@@ -400,6 +422,7 @@ func (fc *fctx) block(list []ast.Stmt, k konts) string {
 					val = fc.expr(vs.Values[i])
 				} else {
 					val = t.zero(nm, v.Type())
+					fc.zeroVars[v] = true
 				}
 				out += fc.flush() + "let " + fc.varName(v) + " : " + t.coqType(nm, v.Type()) + " := " + val + " in\n  "
 			}
@@ -557,6 +580,7 @@ func (fc *fctx) store(lhs ast.Expr, val string) string {
 		if !ok || v.Parent() == t.pkg.Types.Scope() {
 			t.fail(lhs, "assignment to %s", l.Name)
 		}
+		delete(fc.zeroVars, v)
 		return fc.flush() + "let " + fc.varName(v) + " := " + val + " in\n  "
 	case *ast.IndexExpr:
 		id, ok := l.X.(*ast.Ident)
@@ -594,6 +618,15 @@ func (fc *fctx) store(lhs ast.Expr, val string) string {
 				rec = "Some (" + rec + ")"
 			}
 			return pre + fc.flush() + "let " + name + " := " + rec + " in\n  "
+		}
+		if ok && k == kLocal {
+			v := t.info.ObjectOf(id).(*types.Var)
+			if v.Parent() == t.pkg.Types.Scope() {
+				t.fail(lhs, "assignment to a field of package variable %s", id.Name)
+			}
+			name := fc.varName(v)
+			delete(fc.zeroVars, v)
+			return fc.flush() + "let " + name + " := set_" + v.Type().(*types.Named).Obj().Name() + "_" + l.Sel.Name + " " + name + " " + val + " in\n  "
 		}
 		if ok && k == kInput {
 			v := t.info.ObjectOf(id).(*types.Var)
@@ -672,6 +705,9 @@ func (fc *fctx) assign(s *ast.AssignStmt) string {
 		if isNilIdent(t, s.Rhs[0]) && fc.kind(s.Lhs[0]) == kBytes {
 			val = "[]"
 		}
+		if id, blank := s.Lhs[0].(*ast.Ident); s.Tok == token.ASSIGN && !(blank && id.Name == "_") && fc.kind(s.Lhs[0]) == kSuiteI && fc.kind(s.Rhs[0]) == kSuite {
+			val = "(Some " + val + ")" // a value stored in the interface
+		}
 		return fc.store(s.Lhs[0], val)
 	}
 	if len(s.Rhs) == 1 {
@@ -704,6 +740,11 @@ func (fc *fctx) assign(s *ast.AssignStmt) string {
 				return pre + "let '(" + strings.Join(pats, ", ") + ") := " + v + " in\n  "
 			}
 			v = fc.call(c, len(s.Lhs))
+			if q, _ := fc.callee(c); q == "json.Marshal" && t.restMode {
+				if id, ok := s.Lhs[0].(*ast.Ident); ok && id.Name != "_" {
+					fc.vtype[t.info.ObjectOf(id).(*types.Var)] = "jout"
+				}
+			}
 		}
 		var pats []string
 		var after string
@@ -773,6 +814,33 @@ func (fc *fctx) exprStmt(s *ast.ExprStmt) string {
 	case "(url.Values).Set":
 		recv := c.Fun.(*ast.SelectorExpr).X
 		return fc.store(recv, "(values_set "+fc.expr(c.Args[0])+" "+fc.expr(c.Args[1])+" "+fc.expr(recv)+")")
+	case "(fasthttp.RequestCtx).SetStatusCode":
+		recv := c.Fun.(*ast.SelectorExpr).X
+		return fc.store(recv, "(ctx_set_status "+fc.expr(recv)+" "+fc.toZ(c.Args[0])+")")
+	case "(fasthttp.RequestCtx).SetContentType":
+		recv := c.Fun.(*ast.SelectorExpr).X
+		return fc.store(recv, "(ctx_set_ctype "+fc.expr(recv)+" "+fc.expr(c.Args[0])+")")
+	case "(fasthttp.RequestCtx).SetBody":
+		recv := c.Fun.(*ast.SelectorExpr).X
+		id, ok := c.Args[0].(*ast.Ident)
+		if !ok || fc.vtype[t.info.ObjectOf(id).(*types.Var)] != "jout" {
+			t.fail(s, "SetBody of something else than the result of json.Marshal")
+		}
+		return fc.store(recv, "(ctx_set_body "+fc.expr(recv)+" "+fc.expr(id)+")")
+	case "(fasthttp.RequestCtx).SetBodyString":
+		recv := c.Fun.(*ast.SelectorExpr).X
+		return fc.store(recv, "(ctx_set_body_string "+fc.expr(recv)+" "+fc.expr(c.Args[0])+")")
+	case "(fasthttp.RequestCtx).Redirect":
+		recv := c.Fun.(*ast.SelectorExpr).X
+		return fc.store(recv, "(ctx_redirect "+fc.expr(recv)+" "+fc.expr(c.Args[0])+" "+fc.toZ(c.Args[1])+")")
+	case "(fasthttp.RequestCtx).SetUserValue":
+		return "" // read by the swagger handler only
+	}
+	if t.restMode {
+		if _, isCall := c.Fun.(*ast.CallExpr); isCall || strings.HasPrefix(q, "self.") {
+			fc.call(c, 0) // for its effect on the context (an in/out parameter)
+			return fc.flush()
+		}
 	}
 	t.fail(s, "call statement %s", exprText(c.Fun))
 	return ""
@@ -1136,4 +1204,50 @@ func (fc *fctx) rangeStmt(s *ast.RangeStmt, rest []ast.Stmt, k konts) string {
 		c = append(c, lvNames)
 	}
 	return pre + strings.Join(c, " ") + " (fun " + lvBinders + " =>\n  " + restT + ")"
+}
+
+// writesThrough: does the body assign to a field of (or through) the receiver?
+func writesThrough(t *tr, body *ast.BlockStmt, recv types.Object) bool {
+	found := false
+	ast.Inspect(body, func(n ast.Node) bool {
+		check := func(x ast.Expr) {
+			for {
+				switch y := x.(type) {
+				case *ast.SelectorExpr:
+					x = y.X
+					continue
+				case *ast.StarExpr:
+					x = y.X
+					continue
+				case *ast.IndexExpr:
+					x = y.X
+					continue
+				case *ast.ParenExpr:
+					x = y.X
+					continue
+				case *ast.Ident:
+					if t.info.ObjectOf(y) == recv {
+						found = true
+					}
+				}
+				return
+			}
+		}
+		switch s := n.(type) {
+		case *ast.AssignStmt:
+			for _, l := range s.Lhs {
+				if _, plain := l.(*ast.Ident); !plain {
+					check(l)
+				}
+			}
+		case *ast.IncDecStmt:
+			check(s.X)
+		case *ast.UnaryExpr:
+			if s.Op == token.AND {
+				check(s.X)
+			}
+		}
+		return true
+	})
+	return found
 }
